@@ -182,7 +182,7 @@ def generate(rng, prop, tier):
         elif k == "attack":
             ops.append({"op": "attack", "acct": rng.randrange(n_acct),
                         "kind": rng.choice(["replay", "replay", "neighbour", "neighbour", "corrupt", "wrong_length",
-                                            "letters", "empty", "last_counter_code", "future"]),
+                                            "letters", "empty", "last_counter_code", "future", "bytes_junk"]),
                         "arg": rng.randint(-4, 4), "pos": rng.randint(0, 9), "digit": rng.randint(0, 9),
                         "tmode": rng.choice(["now", "now", "int", "float", "dt"])})
         elif k == "match_params":
@@ -665,6 +665,8 @@ class _World:
             got = ("accept", m.counter)
         except MalformedTokenError:
             got = ("malformed",)
+        except UnicodeDecodeError:
+            got = ("malformed",)  # (bytes that are not text: which error class refuses them is not fixed by the statement)
         except UsedTokenError as e:
             got = ("used", e.expire_time)
         except InvalidTokenError:
@@ -773,6 +775,12 @@ class _World:
         elif kind == "empty":
             token = ["", " ", "-", "      "][op["pos"] % 4]
             ctx.fault("attack_wrong_length")
+        elif kind == "bytes_junk":
+            # the CURRENT code as bytes with a non-ASCII byte sequence inside: not a code, whatever a lenient decoder makes of it
+            t = ref_hotp(acct["key"], cur, a["alg"], a["digits"]).encode("ascii")
+            p = op["pos"] % (len(t) + 1)
+            token = t[:p] + [b"\xff", b"\xe2\x80\x93", b"\xc3"][op["digit"] % 3] + t[p:]
+            ctx.fault("attack_corrupt")
         else:
             return
         self.submit(ai, token, op.get("tmode", "now"))
